@@ -52,11 +52,12 @@ func scenarios(tier string) []engine.Scenario {
 		}
 	}
 	for kind := range ternaryKinds {
-		scs = append(scs, ternarySequenceScenario(kind, terDepth))
+		scs = append(scs, ternarySequenceScenario(kind, terDepth, false), ternarySequenceScenario(kind, terDepth, true))
 	}
 	for _, cfg := range gaussSmallCfgs() {
 		scs = append(scs, gaussianAnswersScenario(cfg))
 		scs = append(scs, gaussianMomentsScenario(cfg, momentsReads))
+		scs = append(scs, gaussianMontgomeryViewsScenario(cfg, gauDepth))
 	}
 	for _, cfg := range []gaussCfg{gaussSmallCfgs()[2], gaussSmallCfgs()[4]} {
 		for first := range gauOps {
@@ -104,6 +105,10 @@ func main() {
 			for _, o := range terOps {
 				e = append(e, "ternary-op="+o)
 			}
+			for _, o := range gauViewOps {
+				e = append(e, "gaussian-montgomery-view-op="+o)
+			}
+			e = append(e, "ternary-seq-montgomery=true", "ternary-seq-montgomery=false")
 			for k := 0; k < 4; k++ {
 				e = append(e, fmt.Sprintf("uniform-rejections=%d", k))
 			}
